@@ -38,7 +38,7 @@ from concurrent.futures import ThreadPoolExecutor
 from fractions import Fraction
 
 from common import bitsf, bitsv3, fbits, stable_hash, v3bits
-from framework import Check
+from framework import Check, ImplementationFault
 
 from gradysim.protocol.interface import IProtocol, IProvider
 from gradysim.protocol.messages.mobility import MobilityCommandType
@@ -253,6 +253,8 @@ class _Fresh:
             raise RuntimeError("C16: the fresh-process server died")
         out = json.loads(line)
         if "error" in out:
+            if out.get("implFault"):
+                raise ImplementationFault(out["type"], out["implFault"])
             raise RuntimeError("C16: running the case in a fresh process failed: " + out["error"])
         for r in out["results"]:        # share the few distinct strings, as the in-process observations do
             r["out"] = sys.intern(r["out"])
@@ -288,7 +290,10 @@ def _serve():
                 try:
                     data = json.dumps(run_impl(json.loads(line)))
                 except BaseException as e:       # noqa: the child must always answer
-                    data = json.dumps({"error": f"{type(e).__name__}: {e}"})
+                    import framework
+                    blame = framework.implementation_fault(e) if isinstance(e, Exception) else None
+                    data = json.dumps({"error": f"{type(e).__name__}: {e}", "implFault": blame,
+                                       "type": type(e).__name__})
                 with os.fdopen(w, "w") as f:
                     f.write(data)
             finally:
